@@ -18,6 +18,7 @@ from vt.envs._base import RoutingAdapter
 class TourAdapter(RoutingAdapter):
     obs_keys = ()                # bookkeeping keys recorded at the end of a rollout (ints per row)
     tiny = 5
+    batch_pad = False            # C06 batched checker calls: a tour has a fixed length, there is no padding action
 
     def choosers(self, tier):
         return ["uniform", "uniform", "low", "high", "depot_first", "depot_last"] if tier == "thorough" else \
